@@ -12,7 +12,8 @@ using namespace stir;
 using namespace c03;
 C03_DEFINE_HOOK
 
-struct GeomSpec { DataCfg d; GridCfg g; int ntl; };
+struct GeomSpec { DataCfg d; GridCfg g; MatOpt o; };
+static MatOpt O(int ntl, bool uadb = false, bool cyl = true) { MatOpt o; o.ntl = ntl; o.uadb = uadb; o.cyl = cyl; return o; }
 
 // ------------------------------------------------------------------------------------------- sym
 static void sym_config(vh::Trace& tr, const DataCfg& d, const GridCfg& g, bool per_bin, long& id) {
@@ -30,7 +31,7 @@ static void sym_config(vh::Trace& tr, const DataCfg& d, const GridCfg& g, bool p
     }
     vh::Json j("SymCfg");
     j.num("id", ++id);
-    emit_geometry(j, d, cyl, *im, 1);
+    emit_geometry(j, d, cyl, *im);
     j.arr("sw", sw_list(sw));
     j.arr("eff", std::vector<int>{ sym->using_symmetry_90degrees_min_phi(), sym->using_symmetry_180degrees_min_phi(),
                                    sym->using_symmetry_swap_segment(), sym->using_symmetry_swap_s(), sym->using_symmetry_shift_z() });
@@ -104,8 +105,24 @@ static void run_sym(vh::Trace& tr, int tier) {
 // ------------------------------------------------------------------------------------------- rows
 struct Family {
   std::string name;
-  std::vector<GeomSpec> geoms;     // gid = index + 1
+  std::string impl;                // "RayTracing" | "Interpolation": class of the matrix under test (and of the reference)
+  std::vector<GeomSpec> geoms;     // gid = index + 1; a geometry flagged `bad` must be refused by set_up
+  int quick_masks;                 // quick tier: number of requested switch settings with a history (thorough: all 32)
+  int passes;                      // number of full passes (1 or 2)
 };
+
+// matrix object of either class behind the ProjMatrixByBin interface
+static shared_ptr<ProjMatrixByBin> new_matrix(const std::string& impl, const Sw& sw, bool cache_on, bool basic_only) {
+  if (impl == "Interpolation") {
+    shared_ptr<ProjMatrixByBinUsingInterpolation> m(new ProjMatrixByBinUsingInterpolation);
+    parse_interpolation(*m, sw, cache_on, basic_only);
+    return m;
+  }
+  return make_matrix(sw, 1, cache_on, basic_only);
+}
+static void options(ProjMatrixByBin& m, const MatOpt& o) {
+  if (auto* rt = dynamic_cast<ProjMatrixByBinUsingRayTracing*>(&m)) apply_options(*rt, o);
+}
 
 struct Recorder {
   vh::Trace& tr;
@@ -115,10 +132,11 @@ struct Recorder {
   std::vector<shared_ptr<VoxelsOnCartesianGrid<float>>> ims;
   std::vector<std::vector<Bin>> bins;
   std::vector<std::map<std::vector<int>, long>> ref_line;   // per gid: bin -> line offset of its Ref line
+  std::vector<bool> usable;                                   // per gid: a reference matrix could be set up
   Recorder(vh::Trace& t, vh::Rng& r) : tr(t), rng(r) {}
 
   void open(const Family& f, long id) {
-    pdis.clear(); ims.clear(); bins.clear(); ref_line.clear();
+    pdis.clear(); ims.clear(); bins.clear(); ref_line.clear(); usable.clear();
     tr.emit(vh::Json("Config").num("id", id).str("family", f.name));
     cfg_line = tr.lines;
     for (size_t k = 0; k < f.geoms.size(); ++k) {
@@ -128,22 +146,25 @@ struct Recorder {
       pdis.push_back(pdi); ims.push_back(im); bins.push_back(all_bins(*pdi));
       vh::Json j("Geom");
       j.num("gid", (long)k + 1);
-      emit_geometry(j, gs.d, dynamic_cast<const ProjDataInfoCylindrical&>(*pdi), *im, gs.ntl);
+      emit_geometry(j, gs.d, dynamic_cast<const ProjDataInfoCylindrical&>(*pdi), *im, gs.o, f.impl);
       tr.emit(j);
       // reference: every row computed directly (no symmetries, no cache) by a matrix of its own
-      Sw none = sw_from_bits(0);
-      shared_ptr<ProjMatrixByBinUsingRayTracing> ref = make_matrix(none, gs.ntl, false, false);
-      ref->set_up(pdi, im);
+      shared_ptr<ProjMatrixByBin> ref = new_matrix(f.impl, sw_from_bits(0), false, false);
+      options(*ref, gs.o);
       std::map<std::vector<int>, long> lines;
-      const CartesianCoordinate3D<float> vs = im->get_voxel_size();
-      for (const Bin& b : bins.back()) {
-        ProjMatrixElemsForOneBin row;
-        ref->get_proj_matrix_elems_for_one_bin(row, b);
-        const float s = pdi->get_s(b), ds = pdi->get_sampling_in_s(b);
-        tr.emit(vh::Json("Ref").num("gid", (long)k + 1).arr("b", bin_list(b)).raw("row", row_json(row))
-                    .num("sx", vh::fx(s / vs.x(), 12)).num("sy", vh::fx(s / vs.y(), 12))
-                    .num("dsx", vh::fx(ds / vs.x(), 12)).num("dsy", vh::fx(ds / vs.y(), 12)));
-        lines[bin_list(b)] = tr.lines - cfg_line;
+      const bool ok = !vh::threw([&] { ref->set_up(pdi, im); });
+      usable.push_back(ok);
+      if (ok) {
+        const CartesianCoordinate3D<float> vs = im->get_voxel_size();
+        for (const Bin& b : bins.back()) {
+          ProjMatrixElemsForOneBin row;
+          ref->get_proj_matrix_elems_for_one_bin(row, b);
+          const float s = pdi->get_s(b), ds = pdi->get_sampling_in_s(b);
+          tr.emit(vh::Json("Ref").num("gid", (long)k + 1).arr("b", bin_list(b)).raw("row", row_json(row))
+                      .num("sx", vh::fx(s / vs.x(), 12)).num("sy", vh::fx(s / vs.y(), 12))
+                      .num("dsx", vh::fx(ds / vs.x(), 12)).num("dsy", vh::fx(ds / vs.y(), 12)));
+          lines[bin_list(b)] = tr.lines - cfg_line;
+        }
       }
       ref_line.push_back(lines);
     }
@@ -151,38 +172,47 @@ struct Recorder {
 
   // one matrix object and a history of calls on it
   struct Obj {
-    shared_ptr<ProjMatrixByBinUsingRayTracing> m;
-    int gid = 0;       // geometry of the last set_up call
+    shared_ptr<ProjMatrixByBin> m;
+    std::string impl;
+    int gid = 0;       // geometry of the last successful set_up call
     Sw sw;
     bool cache_on, basic_only;
   };
-  Obj make(const Sw& sw, bool cache_on, bool basic_only) {
-    Obj o; o.sw = sw; o.cache_on = cache_on; o.basic_only = basic_only;
-    o.m = make_matrix(sw, 1, cache_on, basic_only);
-    tr.emit(vh::Json("New").arr("sw", sw_list(sw)).boolean("cacheOn", cache_on).boolean("basicOnly", basic_only));
+  Obj make(const Family& f, const Sw& sw, bool cache_on, bool basic_only) {
+    Obj o; o.sw = sw; o.cache_on = cache_on; o.basic_only = basic_only; o.impl = f.impl;
+    o.m = new_matrix(f.impl, sw, cache_on, basic_only);
+    tr.emit(vh::Json("New").str("impl", f.impl).arr("sw", sw_list(sw)).boolean("cacheOn", cache_on).boolean("basicOnly", basic_only));
     return o;
   }
   void set_sw(Obj& o, const Sw& sw) {
-    apply_switches(*o.m, sw);
     o.sw = sw;
-    tr.emit(vh::Json("SetSw").arr("sw", sw_list(sw)));
+    if (auto* ip = dynamic_cast<ProjMatrixByBinUsingInterpolation*>(o.m.get())) {
+      // parsing sets every parameter: the switches and (again) the current cache mode
+      const bool failed = parse_interpolation(*ip, sw, o.cache_on, o.basic_only);
+      tr.emit(vh::Json("Parse").arr("sw", sw_list(sw)).boolean("cacheOn", o.cache_on).boolean("basicOnly", o.basic_only).boolean("failed", failed));
+    } else {
+      apply_switches(dynamic_cast<ProjMatrixByBinUsingRayTracing&>(*o.m), sw);
+      tr.emit(vh::Json("SetSw").arr("sw", sw_list(sw)));
+    }
   }
-  void set_up(Obj& o, const Family& f, int gid) {
-    o.m->set_num_tangential_LORs(f.geoms[gid - 1].ntl);
+  // returns false if set_up reported an error
+  bool set_up(Obj& o, const Family& f, int gid) {
+    options(*o.m, f.geoms[gid - 1].o);
     HookLog::get().start();
     std::string msg;
     const bool err = vh::threw([&] { o.m->set_up(pdis[gid - 1], ims[gid - 1]); }, &msg);
     auto ev = HookLog::get().stop();
-    o.gid = gid;
+    if (!err) o.gid = gid;
     vh::Json j("SetUp");
     j.num("gid", gid).arr2("hooks", ev).boolean("err", err);
     const DataSymmetriesForBins_PET_CartesianGrid* sym = dynamic_cast<const DataSymmetriesForBins_PET_CartesianGrid*>(o.m->get_symmetries_ptr());
-    if (sym)
+    if (sym && !err)
       j.arr("eff", std::vector<int>{ sym->using_symmetry_90degrees_min_phi(), sym->using_symmetry_180degrees_min_phi(),
                                      sym->using_symmetry_swap_segment(), sym->using_symmetry_swap_s(), sym->using_symmetry_shift_z() });
     else
       j.arr("eff", std::vector<int>{});
     tr.emit(j);
+    return !err;
   }
   void get(Obj& o, const Bin& b) {
     ProjMatrixElemsForOneBin row;
@@ -204,9 +234,12 @@ struct Recorder {
   void enable_cache(Obj& o, bool v) { o.m->enable_cache(v); o.cache_on = v; tr.emit(vh::Json("EnableCache").boolean("v", v)); }
   void store_basic(Obj& o, bool v) { o.m->store_only_basic_bins_in_cache(v); o.basic_only = v; tr.emit(vh::Json("StoreBasic").boolean("v", v)); }
 
+  int pick_usable(const Family& f) {
+    for (;;) { int g = rng.range(1, (int)f.geoms.size()); if (usable[g - 1]) return g; }
+  }
   // seeded history: requests with repeats, cache-mode changes, clear_cache, re-set_up (same / other geometry / other switches)
   void history(const Family& f, const Sw& sw, bool cache_on, bool basic_only, int len) {
-    Obj o = make(sw, cache_on, basic_only);
+    Obj o = make(f, sw, cache_on, basic_only);
     set_up(o, f, 1);
     std::vector<Bin> recent;
     for (int i = 0; i < len; ++i) {
@@ -223,7 +256,12 @@ struct Recorder {
       } else if (r < 84) clear(o);
       else if (r < 87) enable_cache(o, !o.cache_on);
       else if (r < 90) store_basic(o, !o.basic_only);
-      else if (r < 95) set_up(o, f, rng.range(1, (int)f.geoms.size()));     // same (skipped) or another geometry
+      else if (r < 95) {
+        // same (skipped) or another geometry; a geometry the class documents as unsupported must be refused,
+        // after which the object is set up properly again before it is used
+        const int g = rng.range(1, (int)f.geoms.size());
+        if (!set_up(o, f, g)) set_up(o, f, pick_usable(f));
+      }
       else if (r < 98) { set_sw(o, sw_from_bits(rng.range(0, 31))); set_up(o, f, o.gid); }
       else {
         // a switch changed without a new set_up: the next request either comes from the cache or must be refused
@@ -234,9 +272,9 @@ struct Recorder {
       }
     }
   }
-  // every bin of geometry gid once, then every bin again in another order
+  // every bin of geometry gid once, then half of them again in another order
   void full_pass(const Family& f, const Sw& sw, bool cache_on, bool basic_only, int gid) {
-    Obj o = make(sw, cache_on, basic_only);
+    Obj o = make(f, sw, cache_on, basic_only);
     set_up(o, f, gid);
     std::vector<Bin> bl = bins[gid - 1];
     for (const Bin& b : bl) get(o, b);
@@ -248,36 +286,59 @@ struct Recorder {
 static std::vector<Family> families(int tier) {
   auto D = [](int N, int R, int span, int maxDelta, int mash, int tofMash, int maxT, int numTang) {
     DataCfg d; d.N = N; d.R = R; d.span = span; d.maxDelta = maxDelta; d.mash = mash; d.tofMash = tofMash; d.maxT = maxT; d.numTang = numTang; return d; };
-  auto G = [](int nx, int ny, int nz, float vx, float vy, int nppr, int oz) {
-    GridCfg g; g.nx = nx; g.ny = ny; g.nz = nz; g.vx = vx; g.vy = vy; g.nppr = nppr; g.oz = oz; return g; };
+  auto G = [](int nx, int ny, int nz, float vx, float vy, int nppr, int oz, float ox = 0.F, float oy = 0.F) {
+    GridCfg g; g.nx = nx; g.ny = ny; g.nz = nz; g.vx = vx; g.vy = vy; g.nppr = nppr; g.oz = oz; g.ox = ox; g.oy = oy; return g; };
+  const std::string RT = "RayTracing", IP = "Interpolation";
   std::vector<Family> fs;
   {
     // 16 detectors, 3 rings, span 1; odd image; second geometry = same data and voxels, other index range;
     // third = two tangential rays; fourth = other data geometry (reduced ring difference)
     DataCfg d = D(16, 3, 1, 2, 1, 0, 0, 7);
-    fs.push_back({ "n16r3", { { d, G(15, 15, 5, 3.3F, 3.3F, 2, 0), 1 }, { d, G(13, 13, 7, 3.3F, 3.3F, 2, 0), 1 },
-                              { d, G(15, 15, 5, 3.3F, 3.3F, 2, 0), 2 }, { D(16, 3, 1, 1, 1, 0, 0, 7), G(15, 15, 5, 3.3F, 3.3F, 2, 0), 1 } } });
+    fs.push_back({ "n16r3", RT, { { d, G(15, 15, 5, 3.3F, 3.3F, 2, 0), O(1) }, { d, G(13, 13, 7, 3.3F, 3.3F, 2, 0), O(1) },
+                                  { d, G(15, 15, 5, 3.3F, 3.3F, 2, 0), O(2) }, { D(16, 3, 1, 1, 1, 0, 0, 7), G(15, 15, 5, 3.3F, 3.3F, 2, 0), O(1) } }, 32, 2 });
   }
   {
     // span 3 with a truncated last segment, even image sizes, anisotropic voxels in the second geometry, shifted z origin in the third
     DataCfg d = D(16, 4, 3, 3, 1, 0, 0, 6);
-    fs.push_back({ "n16r4s3", { { d, G(12, 12, 7, 3.1F, 3.1F, 2, 0), 1 }, { d, G(12, 14, 7, 3.1F, 2.6F, 2, 0), 1 }, { d, G(12, 12, 8, 3.1F, 3.1F, 2, 1), 2 } } });
+    fs.push_back({ "n16r4s3", RT, { { d, G(12, 12, 7, 3.1F, 3.1F, 2, 0), O(1) }, { d, G(12, 14, 7, 3.1F, 2.6F, 2, 0), O(1) }, { d, G(12, 12, 8, 3.1F, 3.1F, 2, 1), O(2) } }, 32, 2 });
   }
   {
     // TOF data; view mashing in the second geometry; quarter-ring planes in the third
-    fs.push_back({ "tofmash", { { D(8, 2, 1, 1, 1, 1, 3, 3), G(9, 9, 3, 4.1F, 4.1F, 2, 0), 1 }, { D(16, 2, 1, 1, 2, 0, 0, 5), G(11, 11, 3, 3.3F, 3.3F, 2, 0), 1 },
-                                { D(8, 2, 1, 1, 1, 0, 0, 3), G(9, 9, 6, 4.1F, 4.1F, 4, -1), 1 } } });
+    fs.push_back({ "tofmash", RT, { { D(8, 2, 1, 1, 1, 1, 3, 3), G(9, 9, 3, 4.1F, 4.1F, 2, 0), O(1) }, { D(16, 2, 1, 1, 2, 0, 0, 5), G(11, 11, 3, 3.3F, 3.3F, 2, 0), O(1) },
+                                    { D(8, 2, 1, 1, 1, 0, 0, 3), G(9, 9, 6, 4.1F, 4.1F, 4, -1), O(1) } }, 32, 2 });
+  }
+  {
+    // even span (segment 0 gets span + 1 ring differences); square FOV; planes = ring spacing / 3; even image sizes;
+    // the last geometry has the half-voxel x origin of a centred even-sized image, which the class documents as unsupported
+    DataCfg d2 = D(12, 4, 2, 3, 1, 0, 0, 5);
+    fs.push_back({ "evenspan", RT, { { d2, G(10, 10, 7, 3.6F, 3.6F, 2, 0), O(1) }, { d2, G(10, 10, 7, 3.6F, 3.6F, 2, 0), O(1, false, false) },
+                                     { D(12, 3, 1, 2, 1, 0, 0, 5), G(11, 11, 7, 3.6F, 3.6F, 3, 0), O(2, false, false) },
+                                     { d2, G(10, 10, 7, 3.6F, 3.6F, 2, 0, -1.8F, 0.F), O(1) } }, 10, 2 });
+  }
+  {
+    // use_actual_detector_boundaries (span 1, no mashing), one and two tangential rays
+    DataCfg d = D(16, 2, 1, 1, 1, 0, 0, 7);
+    fs.push_back({ "uadb", RT, { { d, G(15, 15, 3, 3.3F, 3.3F, 2, 0), O(1, true) }, { d, G(15, 15, 3, 3.3F, 3.3F, 2, 0), O(2, true) },
+                                 { d, G(15, 15, 3, 3.3F, 3.3F, 2, 0), O(1) } }, 12, 1 });
+  }
+  {
+    // the interpolating matrix (switches and cache mode through its parameter parsing)
+    DataCfg d = D(12, 2, 1, 1, 1, 0, 0, 5);
+    fs.push_back({ "interp", IP, { { d, G(9, 9, 3, 3.7F, 3.7F, 2, 0), O(1) }, { d, G(7, 7, 3, 3.7F, 3.7F, 2, 0), O(1) },
+                                   { D(16, 3, 3, 1, 1, 0, 0, 5), G(9, 9, 5, 3.3F, 3.3F, 2, 0), O(1) } }, 10, 2 });
   }
   if (tier > 0) {
-    fs.push_back({ "n32r4", { { D(32, 4, 1, 3, 1, 0, 0, 9), G(21, 21, 7, 2.1F, 2.1F, 2, 0), 1 }, { D(32, 4, 1, 3, 1, 0, 0, 9), G(20, 20, 7, 2.1F, 2.1F, 2, 0), 1 },
-                              { D(32, 4, 1, 3, 1, 0, 0, 9), G(21, 21, 14, 2.1F, 2.1F, 4, 0), 2 } } });
-    fs.push_back({ "n24r3", { { D(24, 3, 1, 2, 1, 0, 0, 8), G(14, 14, 5, 2.7F, 2.7F, 2, 0), 1 }, { D(24, 3, 1, 2, 1, 0, 0, 8), G(14, 14, 3, 2.7F, 2.7F, 1, 0), 1 },
-                              { D(24, 3, 1, 1, 1, 0, 0, 8), G(14, 14, 5, 2.7F, 2.7F, 2, -1), 1 } } });
-    fs.push_back({ "n20s5", { { D(20, 6, 5, 5, 1, 0, 0, 5), G(11, 11, 11, 3.2F, 3.2F, 2, 0), 1 }, { D(20, 6, 5, 5, 1, 0, 0, 5), G(11, 11, 11, 3.2F, 3.2F, 2, 1), 1 },
-                              { D(20, 6, 3, 4, 1, 0, 0, 5), G(11, 9, 11, 3.2F, 3.2F, 2, 0), 1 } } });
-    fs.push_back({ "tof9", { { D(16, 3, 1, 2, 1, 3, 9, 5), G(11, 11, 5, 3.4F, 3.4F, 2, 0), 1 }, { D(16, 3, 1, 2, 1, 1, 9, 5), G(11, 11, 5, 3.4F, 3.4F, 2, 0), 1 } } });
-    fs.push_back({ "n12odd", { { D(12, 2, 1, 1, 1, 0, 0, 5), G(9, 9, 3, 3.7F, 3.7F, 2, 0), 1 }, { D(14, 2, 1, 1, 1, 0, 0, 5), G(9, 9, 3, 3.7F, 3.7F, 2, 0), 1 },
-                               { D(12, 2, 1, 1, 3, 0, 0, 5), G(9, 9, 2, 3.7F, 3.7F, 1, 0), 2 } } });
+    fs.push_back({ "n32r4", RT, { { D(32, 4, 1, 3, 1, 0, 0, 9), G(21, 21, 7, 2.1F, 2.1F, 2, 0), O(1) }, { D(32, 4, 1, 3, 1, 0, 0, 9), G(20, 20, 7, 2.1F, 2.1F, 2, 0), O(1) },
+                                  { D(32, 4, 1, 3, 1, 0, 0, 9), G(21, 21, 14, 2.1F, 2.1F, 4, 0), O(2) } }, 32, 2 });
+    fs.push_back({ "n24r3", RT, { { D(24, 3, 1, 2, 1, 0, 0, 8), G(14, 14, 5, 2.7F, 2.7F, 2, 0), O(1) }, { D(24, 3, 1, 2, 1, 0, 0, 8), G(14, 14, 3, 2.7F, 2.7F, 1, 0), O(1) },
+                                  { D(24, 3, 1, 1, 1, 0, 0, 8), G(14, 14, 5, 2.7F, 2.7F, 2, -1), O(1) } }, 32, 2 });
+    fs.push_back({ "n20s5", RT, { { D(20, 6, 5, 5, 1, 0, 0, 5), G(11, 11, 11, 3.2F, 3.2F, 2, 0), O(1) }, { D(20, 6, 5, 5, 1, 0, 0, 5), G(11, 11, 11, 3.2F, 3.2F, 2, 1), O(1) },
+                                  { D(20, 6, 3, 4, 1, 0, 0, 5), G(11, 9, 11, 3.2F, 3.2F, 2, 0), O(1) } }, 32, 2 });
+    fs.push_back({ "tof9", RT, { { D(16, 3, 1, 2, 1, 3, 9, 5), G(11, 11, 5, 3.4F, 3.4F, 2, 0), O(1) }, { D(16, 3, 1, 2, 1, 1, 9, 5), G(11, 11, 5, 3.4F, 3.4F, 2, 0), O(1) } }, 32, 2 });
+    fs.push_back({ "n12odd", RT, { { D(12, 2, 1, 1, 1, 0, 0, 5), G(9, 9, 3, 3.7F, 3.7F, 2, 0), O(1) }, { D(14, 2, 1, 1, 1, 0, 0, 5), G(9, 9, 3, 3.7F, 3.7F, 2, 0), O(1) },
+                                   { D(12, 2, 1, 1, 3, 0, 0, 5), G(9, 9, 2, 3.7F, 3.7F, 1, 0), O(2) } }, 32, 2 });
+    fs.push_back({ "span4", RT, { { D(16, 5, 4, 4, 1, 0, 0, 5), G(11, 11, 9, 3.3F, 3.3F, 2, 0), O(1, false, false) }, { D(16, 5, 4, 4, 2, 0, 0, 5), G(12, 12, 18, 3.3F, 3.3F, 4, 0), O(1) },
+                                  { D(16, 3, 1, 2, 1, 0, 0, 5), G(11, 11, 7, 3.3F, 3.3F, 3, 1), O(1) } }, 32, 2 });
   }
   return fs;
 }
@@ -295,14 +356,18 @@ static void run_rows(vh::Trace& tr, int tier, int only, vh::Rng& rng) {
     auto maybe_open = [&] { if (nh % per_block == 0) rec.open(f, ++id); ++nh; };
     // every bin of the first two geometries under the default setting of the class and with everything cached
     maybe_open(); rec.full_pass(f, sw_from_bits(31), true, true, 1);
-    maybe_open(); rec.full_pass(f, sw_from_bits(31), true, false, f.geoms.size() > 1 ? 2 : 1);
-    // every requested switch setting x cache disabled / basic bins only / everything
+    if (f.passes > 1) { maybe_open(); rec.full_pass(f, sw_from_bits(31), true, false, f.geoms.size() > 1 ? 2 : 1); }
+    // requested switch settings x cache disabled / basic bins only / everything
     const int len = tier > 0 ? 110 : 80;
-    for (int mask = 0; mask < 32; ++mask)
+    const int nmask = tier > 0 ? 32 : f.quick_masks;
+    for (int k = 0; k < nmask; ++k) {
+      // all 32 settings, or a seeded selection that always contains "everything on"
+      const int mask = nmask == 32 ? k : (k == 0 ? 31 : frng.range(0, 31));
       for (int mode = 0; mode < 3; ++mode) {
         maybe_open();
         rec.history(f, sw_from_bits(mask), mode != 0, mode == 1, len);
       }
+    }
   }
 }
 
